@@ -405,10 +405,29 @@ impl Node {
         }
 
         for ac in another_root_children {
-            self.append_child(ac)?
+            self.merge_child(ac, allow_override_handler)?
         }
 
         Ok(())
+    }
+
+    /// a `:param` child takes every segment at its position, so a second one
+    /// next to it would never be reached: they are merged into one node
+    fn merge_child(&mut self, child: Node, allow_override_handler: bool) -> Result<(), String> {
+        if child.pattern.as_ref().is_some_and(Pattern::is_param) {
+            if let Some(existing) = self.children.iter_mut().find(|c| c.pattern.as_ref().is_some_and(Pattern::is_param)) {
+                let Node { fangses, handler, children, .. } = child;
+                existing.append_fangs(fangses);
+                if let Some(h) = handler {
+                    existing.set_handler(h, allow_override_handler)?;
+                }
+                for c in children {
+                    existing.merge_child(c, allow_override_handler)?
+                }
+                return Ok(())
+            }
+        }
+        self.append_child(child)
     }
 
     /// MUST be called after all handlers are registered
